@@ -20,6 +20,11 @@ type HStep struct {
 	Cfg     int       `json:"cfg,omitempty"`
 	Debug   bool      `json:"debug,omitempty"`
 	Planted []Planted `json:"planted,omitempty"` // reject: what is planted into Cfgs[Cfg]
+	// reject, the `cfg := m.Config(); cfg.X = ...; m.Reconfigure(cfg)` flow: the
+	// rejected configuration is derived from the CURRENT Config() (if any) with
+	// these valid origins appended, and the violations planted into that.
+	FromCurrent bool     `json:"from_current,omitempty"`
+	AddOrigins  []string `json:"add_origins,omitempty"`
 }
 
 type HistPlan struct {
@@ -148,7 +153,7 @@ func (e histEngine) FaultKinds() []string {
 	if e.id == "C06" {
 		return []string{"F2_restore", "F2_restart", "F2_double_restore", "F2_restore_on_passthrough"}
 	}
-	return []string{"F1_rejected_reconfigure", "F1_on_passthrough", "F1_on_configured_debug_on", "F1_multi_violation"}
+	return []string{"F1_rejected_reconfigure", "F1_on_passthrough", "F1_on_configured_debug_on", "F1_multi_violation", "F1_derived_from_current_config"}
 }
 func (e histEngine) Probes() []string {
 	if e.id == "C06" {
@@ -190,7 +195,14 @@ func (e histEngine) Gen(r *R, tier string) any {
 			if e.id == "C06" {
 				p.Steps = append(p.Steps, HStep{Kind: pick(r, []string{"restore", "restore", "restart", "double_restore"})})
 			} else {
-				p.Steps = append(p.Steps, HStep{Kind: "reject", Cfg: r.Intn(n), Planted: genPlanted(r, pick(r, []int{1, 1, 1, 2, 3, 4}))})
+				st := HStep{Kind: "reject", Cfg: r.Intn(n), Planted: genPlanted(r, pick(r, []int{1, 1, 1, 2, 3, 4}))}
+				if r.P(0.35) {
+					st.FromCurrent = true
+					for k := r.Intn(3); k > 0; k-- {
+						st.AddOrigins = append(st.AddOrigins, "https://"+pick(r, []string{"added.example.net", "example.org", "zz.example.com", "a.test", randDomain(r)})+pick(r, []string{"", "", ":8443", ":*"}))
+					}
+				}
+				p.Steps = append(p.Steps, st)
 			}
 		}
 	}
@@ -410,6 +422,13 @@ func (e histEngine) f2(p *HistPlan, m *cors.Middleware, cur int, kind, label str
 // f1: rejected Reconfigure (C08)
 func (e histEngine) f1(p *HistPlan, m *cors.Middleware, cur int, st HStep, label string, c *Ctx) *Violation {
 	base := p.Cfgs[st.Cfg]
+	if st.FromCurrent {
+		if live := m.Config(); live != nil {
+			base = *fromConfig(live)
+			base.Origins = append(base.Origins, st.AddOrigins...)
+			c.hit("F1_derived_from_current_config")
+		}
+	}
 	bad := plantAll(base, st.Planted)
 	suite := suiteFor(p.Cfgs, cur, &bad)
 	before, pan := observeMW(m, suite)
@@ -460,6 +479,18 @@ func (e histEngine) Shrink(plan any) []any {
 			q.Steps = append([]HStep{}, p.Steps...)
 			q.Steps[i].Kind = "restore"
 			out = append(out, &q)
+		}
+		if st.FromCurrent {
+			q := *p
+			q.Steps = append([]HStep{}, p.Steps...)
+			q.Steps[i].FromCurrent, q.Steps[i].AddOrigins = false, nil
+			out = append(out, &q)
+			for j := range st.AddOrigins {
+				q := *p
+				q.Steps = append([]HStep{}, p.Steps...)
+				q.Steps[i].AddOrigins = append(append([]string{}, st.AddOrigins[:j]...), st.AddOrigins[j+1:]...)
+				out = append(out, &q)
+			}
 		}
 		if len(st.Planted) > 1 {
 			for j := range st.Planted {
